@@ -168,7 +168,10 @@ BlindByDefault == (last.kind \in {"envvar", "avail"} /\ ~last.allow) => res = <<
 HistoryBlind ==       \* the gate never looks at earlier evaluations of a token / Selector / parser
   \A o \in Objects \ {"fnitem"}, a \in BOOLEAN :
      \A h1 \in {<<>>, <<TRUE>>, <<FALSE>>, <<TRUE, TRUE>>, <<TRUE, FALSE>>} : Gate(o, h1, a) = a
-(* ... i.e. the answer is the same in every environment (non-interference)           *)
+(* ... i.e. the answer is the same in every environment (non-interference).  The law is about EVERY  *)
+(* expression, not only the two environment functions: the binding also evaluates every zero-argument *)
+(* function of the live parser and the vectors of this module in fresh processes whose LANG / LC_ALL / *)
+(* LANGUAGE / LC_MESSAGES / TZ / HOME / PATH differ, and requires identical answers                   *)
 NonInterference ==
   \A e1 \in SUBSET Names, e2 \in SUBSET Names :
      /\ AvailRes(FALSE, e1) = AvailRes(FALSE, e2)
